@@ -202,6 +202,10 @@ C10_EmbedMeta(o, i, outps) ==
                  KindRank(outps[idx(a)].k) = KindRank(outps[idx(b)].k) /\ idx(a) > idx(b), "C10_OuterBeforeInner")
   \cup Clause(\E n \in inOut(o) : ~KindOrder(ParamOf(o, n).k, outps[idx(n)].k), "C10_KindOnlyRestricts")
   \cup Clause(\E n \in inOut(i) \ NamedNames(o) : ~KindOrder(ParamOf(i, n).k, outps[idx(n)].k), "C10_KindOnlyRestricts")
+  (* ... and only as far as REQUIRED: an outer regular parameter becomes positional-only only in front of an inner positional-only one *)
+  \cup Clause(\E n \in inOut(o) : ParamOf(o, n).k = "pok" /\ outps[idx(n)].k = "po"
+                 /\ ~\E y \in DOMAIN outps : y > idx(n) /\ outps[y].k = "po" /\ outps[y].n \in NamedNames(i) \ NamedNames(o),
+              "C10_KindRestrictedWithoutNeed")
   \cup Clause(\E n \in inOut(o) : LET p == ParamOf(o, n)  q == outps[idx(n)] IN
                  q.an # p.an \/ (q.d /\ (~p.d \/ q.dv # p.dv))
                  \/ (p.d /\ ~q.d /\ ~(p.k \in {"po", "pok"} /\ reqInnerPosAfter(idx(n)))), "C10_OuterMetaKept")
